@@ -313,6 +313,11 @@ func (r *Run) runPath(w *Worker, it workItem) (more [][]uint64) {
 		hr.mu.Lock()
 		want := len(hr.passSamples) < r.passPerH
 		hr.mu.Unlock()
+		for _, e := range m.events {
+			if e.kind == "assert" || e.kind == "inconclusive" {
+				want = false // the path continued under an assumption the real code does not meet
+			}
+		}
 		if want {
 			ts := m.flatDraws()
 			nd := len(ts)
